@@ -470,10 +470,9 @@ impl BtpInner {
             .session
             .is_ack_due(Instant::now(), self.ack_timeout_secs as _)
         {
-            let len = self.session.prep_tx_data(&[], &mut 0, buf)?;
-            assert!(len > 0);
-
-            return Ok(len);
+            // Might be 0 if the send window is full: the ACK will then go out
+            // once the peer acknowledges some of our segments
+            return self.session.prep_tx_data(&[], &mut 0, buf);
         }
 
         Ok(0)
